@@ -394,6 +394,17 @@ LABEL_POOL = [b"a", b"b", b"www", b"example", b"com", b"local", b"_tcp", b"_udp"
               b"x" * 63, b"\x00", b"\xff\xfe", b"a.b", b"\\", b"caf\xc3\xa9", b"\xc0", b"A", b"Example"]
 
 
+# names that RFCs give a meaning to (special-use domains, reverse-mapping trees of the link-local ranges, DNS-SD names): code that
+# treats ONE such name specially is only met by spelling it
+WELL_KNOWN_TEXTS = ["local", "localhost", "invalid", "test", "example", "onion", "home.arpa", "arpa", "in-addr.arpa", "ip6.arpa",
+                    "254.169.in-addr.arpa", "169.in-addr.arpa", "10.in-addr.arpa", "8.e.f.ip6.arpa", "9.e.f.ip6.arpa", "a.e.f.ip6.arpa",
+                    "b.e.f.ip6.arpa", "e.f.ip6.arpa", "f.ip6.arpa", "0.8.e.f.ip6.arpa", "1.0.254.169.in-addr.arpa", "c.e.f.ip6.arpa",
+                    "_services._dns-sd._udp.local", "b._dns-sd._udp.local", "db._dns-sd._udp.local", "lb._dns-sd._udp.local",
+                    "_tcp.local", "_udp.local", "_sub._http._tcp.local", "root-servers.net", "a.root-servers.net", "resolver.arpa",
+                    "ipv4only.arpa", "IN-ADDR.ARPA", "8.E.F.IP6.ARPA", "254.169.IN-ADDR.arpa"]
+WELL_KNOWN_NAMES = [[l.encode() for l in t.split(".")] for t in WELL_KNOWN_TEXTS]
+
+
 def gen_label(rng):
     r = rng.below(10)
     if r < 7:
@@ -417,6 +428,11 @@ def gen_name(rng, shared=None, maxlabels=5):
             while sum(len(l) + 1 for l in name) + 1 > 255:
                 name = name[1:]
             return name
+    if rng.chance(1, 12):
+        name = [gen_label(rng) for _ in range(rng.below(2))] + list(rng.choice(WELL_KNOWN_NAMES))
+        if shared is not None and rng.chance(1, 2) and len(shared) < 12:
+            shared.append(name)
+        return name
     if shared and rng.chance(3, 4):
         base = list(rng.choice(shared))
         extra = [gen_label(rng) for _ in range(rng.below(3))]
@@ -519,6 +535,60 @@ def gen_typed_vals(rng, tname, shared):
     if tname == "OPT":
         return [("I", gen_int(rng, 2)), ("I", gen_int(rng, 1)), ("L", gen_items(rng, "opt"))]
     return [gen_field(rng, k, shared) for k in SCHEMA[tname][1]]
+
+
+def sweep_values(nbytes, tier):
+    """every value of a one-byte field; for wider fields the registry range (0..1023 quick, 0..4095 thorough), the private-use
+    top of the range, and every power of two with its neighbours"""
+    top = (1 << (8 * nbytes)) - 1
+    if nbytes == 1:
+        return list(range(256))
+    low = 1024 if tier == "quick" else 4096
+    vals = set(range(low)) | set(range(top - 255, top + 1))
+    for k in range(8 * nbytes):
+        vals |= {(1 << k) - 1, 1 << k, (1 << k) + 1}
+    return sorted(v for v in vals if 0 <= v <= top)
+
+
+def field_sweeps(tier):
+    """(type name, values) with one integer field at a time swept over sweep_values and everything else minimal (zero integers,
+    a one-label name, empty strings and item lists), once with every trailing blob empty and once holding a few bytes: code that
+    gives ONE value of a registry-like field a special reading (a certificate type, an algorithm, a covered type, a scheme)
+    is met with and without data behind it"""
+    out = []
+    for tname in TYPED:
+        schemas = [SCHEMA[tname][1]] if tname != "IPSECKEY" else [ipseckey_schema(g) for g in range(4)]
+        for gi, sch in enumerate(schemas):
+            def base(rest):
+                vals = []
+                for k in sch:
+                    if k == "ver0":
+                        vals.append(("I", 0))
+                    elif k == "cstr":
+                        vals.append(("B", b""))
+                    elif k == "rest":
+                        vals.append(("B", rest))
+                    elif k[0] == "be":
+                        vals.append(("I", 0))
+                    elif k[0] == "name":
+                        vals.append(("N", [b"a"]))
+                    else:
+                        vals.append(("L", []))
+                if tname == "IPSECKEY":
+                    vals[1] = ("I", gi)
+                return vals
+            rests = [b"", b"\x01\x02\x03"] if "rest" in sch else [b""]
+            for i, k in enumerate(sch):
+                if not (isinstance(k, tuple) and k[0] == "be" and k[1] <= 2):
+                    continue
+                if tname == "IPSECKEY" and i == 1:
+                    continue
+                for rest in rests:
+                    for v in sweep_values(k[1], tier):
+                        vals = base(rest)
+                        vals[i] = ("I", v)
+                        out.append((tname, vals))
+    return out
 
 
 def gen_rdata(rng, shared, tname=None):
